@@ -254,6 +254,40 @@ func hFrameOps() []HOp {
 				}
 				return &hChecked{outs, problem}
 			}},
+			HOp{"decode-relayed(" + f.name + ")", func(ctx HCtx) interface{} {
+				// a forwarded frame: the outer data frame carries this frame as its
+				// FRMPayload; the outer frame is decoded into the sequence's receiver and
+				// the inner one is then decoded, from the payload bytes the receiver
+				// holds, into the same receiver
+				outer := lorawan.PHYPayload{MHDR: lorawan.MHDR{MType: lorawan.UnconfirmedDataUp, Major: lorawan.LoRaWANR1}, MIC: lorawan.MIC{1, 1, 2, 2}, MACPayload: &lorawan.MACPayload{
+					FHDR: lorawan.FHDR{DevAddr: lorawan.DevAddr{7, 7, 7, 7}, FCnt: 1}, FPort: hPort(226), FRMPayload: []lorawan.Payload{&lorawan.DataPayload{Bytes: append([]byte(nil), wire...)}}}}
+				ow, err := outer.MarshalBinary()
+				if err != nil {
+					return []interface{}{"outer-not-encodable"}
+				}
+				phy, _ := ctx["relay-phy"].(*lorawan.PHYPayload)
+				if phy == nil {
+					phy = &lorawan.PHYPayload{}
+					ctx["relay-phy"] = phy
+				}
+				if err := phy.UnmarshalBinary(ow); err != nil {
+					return &hChecked{[]interface{}{"outer"}, "the relay frame does not decode: " + err.Error()}
+				}
+				inner := phy.MACPayload.(*lorawan.MACPayload).FRMPayload[0].(*lorawan.DataPayload).Bytes
+				innerBefore := append([]byte(nil), inner...)
+				err = phy.UnmarshalBinary(inner)
+				problem := ""
+				if !bytes.Equal(inner, innerBefore) {
+					problem = fmt.Sprintf("decoding wrote to its input: %x became %x", innerBefore, inner)
+				}
+				var fresh lorawan.PHYPayload
+				fresh.UnmarshalBinary(append([]byte(nil), wire...))
+				kept := *phy
+				if a, b := pubPrint(kept), pubPrint(fresh); problem == "" && a != b {
+					problem = "the relayed frame decodes differently from the same bytes decoded into a fresh value, " + firstDiff(a, b)
+				}
+				return &hChecked{&hDecoded{&kept, errS(err)}, problem}
+			}},
 			HOp{"decode-then-edit(" + f.name + ")", func(HCtx) interface{} {
 				var p lorawan.PHYPayload
 				err := p.UnmarshalBinary(append([]byte(nil), wire...))
